@@ -5,7 +5,6 @@ From Coq Require String.
 Require Import SV.Base.StrOrder SV.Model.Intersect SV.Facts.IntersectFacts.
 Require Import SV.Model.Kinds SV.Model.Syntax SV.Model.Expand SV.Model.Sem SV.Model.Run SV.Facts.TblNames SV.Facts.SemFacts
                SV.Facts.ProgramFacts SV.Facts.TablesFacts.
-Require Import SV.Model.Imp SV.Model.GenImp SV.Model.ImpRun SV.Facts.ImpFacts SV.Facts.UtilsRefine.
 Import ListNotations.
 Import String.StringSyntax.
 Local Open Scope string_scope.
@@ -31,24 +30,6 @@ Proof. exact assert_no_intersection_never_stuck. Qed.
 Check c05_overlap_check_panics_iff_shared :
   forall ls : list (list String.string), Forall (StronglySorted slt) ls ->
     (assert_no_intersection ls = Panic <-> shares ls).
-
-(* The same two statements about the overlap check AS TRANSLATED FROM THE CURRENT RUST SOURCE (GenImp.utils_program is
-   regenerated from sylvia/src/utils.rs on every run; `calls` = the result of running the translated function under the
-   semantics of Model/Imp.v with any sufficiently large fuel): it panics with the overlap message iff two lists share a
-   name, and returns normally iff none is shared. *)
-Theorem c05_translated_source_panics_iff_shared :
-  forall d (ls : list (list String.string)), Forall (StronglySorted slt) ls ->
-    (calls utils_program (S (S d)) "assert_no_intersection" [enc_ls ls] (CPanic "panic" overlap_msg) <-> shares ls).
-Proof. exact translated_source_panics_iff_shared. Qed.
-
-Theorem c05_translated_source_passes_iff_disjoint :
-  forall d (ls : list (list String.string)), Forall (StronglySorted slt) ls ->
-    (calls utils_program (S (S d)) "assert_no_intersection" [enc_ls ls] (CVal VUnit) <-> ~ shares ls).
-Proof. exact translated_source_passes_iff_disjoint. Qed.
-
-Check c05_translated_source_panics_iff_shared :
-  forall d (ls : list (list String.string)), Forall (StronglySorted slt) ls ->
-    (calls utils_program (S (S d)) "assert_no_intersection" [enc_ls ls] (CPanic "panic" overlap_msg) <-> shares ls).
 
 (* Part B: the published lists. Each part's list is sorted ... *)
 Theorem c05_published_list_sorted : forall c ifs k t,
@@ -85,15 +66,7 @@ Example c05_example_disjoint :
   assert_no_intersection [["a"; "c"]; []; ["b"; "d"]] = Done.
 Proof. split; [|reflexivity]. repeat constructor. Qed.
 
-(* the translated source, executed: same inputs as above *)
-Example c05_example_translated :
-  imp_run_case [["a"; "c"]; []; ["b"; "c"; "d"]] = ["panic"] /\ imp_run_case [["a"; "c"]; []; ["b"; "d"]] = ["done"] /\
-  overlap_msg <> "".
-Proof. vm_compute. repeat split; discriminate. Qed.
-
 Print Assumptions c05_overlap_check_panics_iff_shared.
-Print Assumptions c05_translated_source_panics_iff_shared.
-Print Assumptions c05_translated_source_passes_iff_disjoint.
 Print Assumptions c05_overlap_check_passes_iff_disjoint.
 Print Assumptions c05_overlap_check_total.
 Print Assumptions c05_published_list_sorted.
